@@ -227,6 +227,11 @@ class ReconfDomain(Domain):
 class CloseDomain(Domain):
     async_enabled = False
 
+    def close_value(self, obj, item, state):
+        if obj == Opaque("discovery-client"):
+            return state.set("closed", True)
+        return state
+
     def call(self, node, fval, args, kwargs, state):
         name = call_name(node)
         if name in ("Client", "self.client_class"):
